@@ -369,6 +369,19 @@ class Verdict:
         return 0
 
 
+def harness_died(vd, what, p):
+    """A harness binary that runs the code under test ended abnormally.  Exit 101 (a Rust panic that reached main), 134 / -6
+    (abort) and -11 mean code under test blew up outside a guarded call - that is data about the code (the harness itself
+    passes on the unchanged tree), so it is a violation with the output kept; anything else is tool trouble."""
+    err = p.stderr.decode("utf8", "replace")[-2000:] if p.stderr else ""
+    if p.returncode in (101, 134, -6, -11, -4, -8):
+        vd.violation("harness-aborted-" + re.sub(r"[^a-z0-9]+", "-", what.lower()),
+                     f"{what}: the process running the code under test ended with status {p.returncode} (panic / abort outside a guarded call): {err[-300:].strip()}",
+                     {"kind": "harness-abort", "what": what, "status": p.returncode, "stderr": err})
+        return True
+    raise ToolError(f"{what} failed (status {p.returncode}): " + err)
+
+
 def _match_known(k, key, doc):
     m = k.get("match", {})
     if "key_regex" in m and not re.search(m["key_regex"], key):
